@@ -24,7 +24,7 @@ TCall == /\ IsEvent("WCall")
                 jump == HasField(ev, "jump") /\ ev.jump
                 e == Eff(s0, ev.obj, ev.op) IN
               /\ jump \/ s0 = st
-              /\ \A o \in Objs : s0[o] > Con => Ready(s0, o)          \* a logged pre-state must itself be a state of the specification
+              /\ \A o \in Objs : (s0[o] >= Pre => PrepOK(s0, o)) /\ (s0[o] = Com => CompOK(s0, o))    \* a logged pre-state must itself be a state of the specification
               /\ ev.obj \in Objs /\ ev.op \in OpNames
               /\ Documented(s0, ev.obj, ev.op) \/ Guarded(s0, ev.obj, ev.op)
               /\ ev.out = e.out
